@@ -27,10 +27,44 @@ def apply_fault(path, kind):
             f.truncate(max(0, n // 2))
 
 
+def store_correspondence(chk, tier):
+    """the cache library behind GARBLE_CACHE/build (PutBytes, then GetFile through a fresh handle, as loadPkgCache does) under
+    faults on the entry's index and data files, vs the store model the theorems are about: every damaged entry is a miss"""
+    from . import c01model
+    from .c01model import hx
+    orc, err = core.build_oracle()
+    S = c01model.OracleSession(orc, core.env())
+    rnd = random.Random(chk.seed * 97 + 6)
+    mops, expect = [], []
+    faults = ["none", "delete-a", "empty-a", "truncate-a", "garbage-a", "delete-d", "empty-d", "truncate-d", "append-d"]
+    try:
+        for _ in range(6 if tier == "quick" else 60):
+            data = bytes(rnd.randrange(256) for _ in range(rnd.choice([1, 2, 31, 300, 5000])))
+            for f in faults:
+                a = S.ask("cachefault %s %s" % (f, hx(data)))
+                mops.append("cachefaultm %s %s" % (f, hx(data))); expect.append(a)
+    finally:
+        S.close()
+    ans = c01model.model_answers(mops)
+    st = chk.cov["streams"].setdefault("oracle:cache-store", {"cases": 0, "hits": 0, "misses": 0, "disagreements": 0})
+    diffs = []
+    for o, e, m in zip(mops, expect, ans):
+        st["cases"] += 1
+        st["hits" if e.startswith("hit") else "misses"] += 1
+        if e != m:
+            st["disagreements"] += 1
+            diffs.append({"op": o[:120], "impl": e[:80], "model": m[:80]})
+    chk.count_cases(mops)
+    if diffs:
+        chk.cov["broken"].append({"kind": "correspondence", "what": "%d disagreements between the cache library and the store model, first: %s" % (len(diffs), diffs[0])})
+        chk.log("correspondence broken:", str(diffs[0])[:300])
+
+
 def main(tier, replay=None):
     chk = core.Check(PID, tier, level="proof")
     core.build_tools()
     chk.proofs(GENS, MODULES)
+    store_correspondence(chk, tier)
     E = e2e.E2E("c07")
     fails = []
     try:
